@@ -42,7 +42,14 @@ def one_case(rng, res, check_c11=True):
                 "keys": [s["key"].kind for s in h.steps]}
         if check_c11:
             judge_links(h, res, desc)
-        scn = h.scenario()
+        try:
+            scn = h.scenario()
+        except ValueError as e:
+            # a file in-toto wrote for a step does not parse: the honest chain cannot be verified at all
+            res.evaluations += 1
+            res.fail("oracle", {"op": "honest_chain", "desc": desc},
+                     {"why": "a link file written by in-toto's own tooling cannot be read back (%s: %s)" % (type(e).__name__, str(e)[:120])})
+            return
         i = h.verify_impl(scn)
         m = W.norm_model_verify(scn.run_model())
         m["log"] = []
@@ -152,8 +159,16 @@ def judge_links(h, res, desc):
             continue
         if h.tamper in ("link_edit", "link_swap") :
             continue
-        md = Metadata.load(st["file"])
-        pl = md.get_payload()
+        try:
+            md = Metadata.load(st["file"])
+            pl = md.get_payload()
+        except Exception as e:  # pylint: disable=broad-except
+            res.evaluations += 1
+            res.count("links_checked")
+            res.fail("oracle", {"op": "link_spec", "desc": desc, "step": st["name"], "mode": st["mode"]},
+                     {"why": "the file written under the step name and key-id prefix cannot be loaded (%s: %s): it is not "
+                             "identical to the returned metadata" % (type(e).__name__, str(e)[:120])})
+            continue
         if st["mode"] in ("run", "run_no_command"):
             compare_with_model(h, st, pl, res, desc)
         why = None
